@@ -188,6 +188,7 @@ fn put_mutable_rules(fix_prev: Option<bool>, fix_cas: Option<bool>) {
 
 
 //@ ob: C04.O1
+//@ unwindset_raw: memcmp.0:66
 //@ tier: thorough
 //@ cap: 2400
 //@ rss: 8
@@ -213,6 +214,7 @@ fn c04_o1_put_mutable_rules() {
 }
 
 //@ ob: C04.O1p
+//@ unwindset_raw: memcmp.0:66
 //@ tier: quick
 //@ cap: 800
 //@ rss: 8.0
@@ -238,6 +240,7 @@ fn c04_o1p_put_mutable_prev_cas() {
 }
 
 //@ ob: C04.O1q
+//@ unwindset_raw: memcmp.0:66
 //@ tier: quick
 //@ cap: 800
 //@ rss: 8.0
@@ -263,6 +266,7 @@ fn c04_o1q_put_mutable_prev_nocas() {
 }
 
 //@ ob: C04.O1r
+//@ unwindset_raw: memcmp.0:66
 //@ tier: quick
 //@ cap: 800
 //@ rss: 6.0
